@@ -1473,8 +1473,10 @@ def _monitor(ctx):
         # `code = p.exitcode` read once into a local: the tests on `code` are tests on p.exitcode
         al = {}
         cnt = {}
+        # (a comprehension has a scope of its own: `any(code is None for code in seen)` does not rebind the loop's `code`)
+        in_comp = {id(x) for c_ in ast.walk(mon) if isinstance(c_, (ast.ListComp, ast.SetComp, ast.DictComp, ast.GeneratorExp)) for x in ast.walk(c_)}
         for n in ast.walk(mon):
-            if isinstance(n, ast.Name) and isinstance(n.ctx, ast.Store):
+            if isinstance(n, ast.Name) and isinstance(n.ctx, ast.Store) and id(n) not in in_comp:
                 cnt[n.id] = cnt.get(n.id, 0) + 1
         for n in ast.walk(mon):
             if isinstance(n, ast.Assign) and len(n.targets) == 1 and isinstance(n.targets[0], ast.Name) and isinstance(n.value, ast.Attribute) \
@@ -1488,6 +1490,11 @@ def _monitor(ctx):
                     if isinstance(n.ctx, ast.Load) and n.id in al:
                         return ast.copy_location(copy.deepcopy(al[n.id]), n)
                     return n
+
+                def visit_GeneratorExp(self, n):
+                    return n
+
+                visit_ListComp = visit_SetComp = visit_DictComp = visit_GeneratorExp
             mon = T().visit(mon)
     return pa, wl, mon
 
@@ -1560,14 +1567,35 @@ def _is_not_none(t):
 def _failure_branches(mon):
     """[(if-node, body)] whose body kills/terminates/raises, with the chain of tests leading to it."""
     out = []
+    # `code = p.exitcode` (the only store to `code` in the monitor): tests on `code` are tests on the exit code
+    stores, alias = {}, {}
+    for n in ast.walk(mon):
+        if isinstance(n, ast.Name) and isinstance(n.ctx, (ast.Store, ast.Del)):
+            stores[n.id] = stores.get(n.id, 0) + 1
+    for n in ast.walk(mon):
+        if isinstance(n, ast.Assign) and len(n.targets) == 1 and isinstance(n.targets[0], ast.Name) and stores.get(n.targets[0].id) == 1 \
+                and isinstance(n.value, ast.Attribute) and n.value.attr == "exitcode":
+            alias[n.targets[0].id] = n.value
+
+    class _A(ast.NodeTransformer):
+        def visit_Name(self, x):
+            if isinstance(x.ctx, ast.Load) and x.id in alias:
+                return ast.copy_location(copy.deepcopy(alias[x.id]), x)
+            return x
 
     def visit(stmts, not_none):
         for s in stmts:
             if isinstance(s, ast.If):
                 # `if not c: A else: B` is read as `if c: B else: A`
-                test, body, orelse = s.test, s.body, s.orelse
+                test, body, orelse = (_A().visit(copy.deepcopy(s.test)) if alias else s.test), s.body, s.orelse
                 while isinstance(test, ast.UnaryOp) and isinstance(test.op, ast.Not):
                     test, body, orelse = test.operand, orelse, body
+                if isinstance(test, ast.BoolOp) and isinstance(test.op, ast.And) and len(test.values) >= 2 and _is_not_none(test.values[0]) and not orelse:
+                    # `if c is not None and <rest>: BODY`  ==  `if c is not None: if <rest>: BODY`
+                    rest = test.values[1] if len(test.values) == 2 else ast.copy_location(ast.BoolOp(op=ast.And(), values=test.values[1:]), test)
+                    inner = ast.copy_location(ast.If(test=rest, body=body, orelse=[]), s)
+                    visit([inner], True)
+                    continue
                 has_ec = any(isinstance(n, ast.Attribute) and n.attr == "exitcode" for n in ast.walk(test))
                 is_none = isinstance(test, ast.Compare) and len(test.ops) == 1 and isinstance(test.ops[0], ast.Is) \
                     and isinstance(test.comparators[0], ast.Constant) and test.comparators[0].value is None and has_ec
@@ -1684,6 +1712,16 @@ def rule_dead(ctx):
                 kf = True
             elif g is not None:
                 why = "%s.kill() is reached only under `%s`, which does not cover every still-running filler" % (fillvar, " and ".join(("" if pol else "not ") + unparse(t, 40) for t, pol in g))
+        if not kf and not kcalls:
+            # the filler put into a local list (`others.insert(0, filler)`) whose members are killed by a loop: not read
+            lists_with = {dotted(c.func.value) for st in body for c in ast.walk(st) if isinstance(c, ast.Call) and isinstance(c.func, ast.Attribute)
+                          and c.func.attr in ("append", "insert", "extend") and any(isinstance(x, ast.Name) and x.id == fillvar for a_ in c.args for x in ast.walk(a_))}
+            lists_with |= {n.targets[0].id for st in body for n in ast.walk(st) if isinstance(n, ast.Assign) and len(n.targets) == 1 and isinstance(n.targets[0], ast.Name)
+                           and isinstance(n.value, (ast.List, ast.Tuple)) and any(isinstance(e_, ast.Name) and e_.id == fillvar for e_ in n.value.elts)}
+            if any(isinstance(f_, ast.For) and isinstance(f_.iter, ast.Name) and f_.iter.id in lists_with and isinstance(f_.target, ast.Name)
+                   and any(isinstance(c, ast.Call) and isinstance(c.func, ast.Attribute) and c.func.attr in ("kill", "terminate")
+                           and dotted(c.func.value) == f_.target.id for c in ast.walk(f_)) for st in body for f_ in ast.walk(st)):
+                kf, why = None, "the processes to stop are gathered in a list and killed in a loop: shape not read"
         ctx.ob("dead-cleanup", pa, node, "%s.kill()" % fillvar, "the filler process is stopped (it would block on a full queue with no consumers, and the later join would hang)", kf,
                "" if kf else why)
         # the log process is a non-daemon child as well: left running it keeps the parent from exiting after the error
@@ -1708,8 +1746,18 @@ def rule_dead(ctx):
                 if g is not None and all(isinstance(t, ast.AST) and (dotted(getattr(t, "left", None)) == "%s.exitcode" % logvar or
                                                                       (isinstance(t, ast.Call) and dotted(t.func) == "%s.is_alive" % logvar)) for t, _p in g):
                     okl = True
+            if not okl and not stops:
+                # processes collected in a local list and stopped by a loop over it (`for other in others: other.kill()`): which ones is not read
+                lists_with_log = {n.targets[0].id for st in body for n in ast.walk(st) if isinstance(n, ast.Assign) and len(n.targets) == 1
+                                  and isinstance(n.targets[0], ast.Name) and isinstance(n.value, (ast.List, ast.Tuple))
+                                  and any(isinstance(e_, ast.Name) and e_.id == logvar for e_ in n.value.elts)}
+                if any(isinstance(f_, ast.For) and isinstance(f_.iter, ast.Name) and f_.iter.id in lists_with_log and isinstance(f_.target, ast.Name)
+                       and any(isinstance(c, ast.Call) and isinstance(c.func, ast.Attribute) and c.func.attr in ("kill", "terminate")
+                               and dotted(c.func.value) == f_.target.id for c in ast.walk(f_)) for st in body for f_ in ast.walk(st)):
+                    okl = None
             ctx.ob("dead-cleanup", pa, node, "%s.kill()" % logvar, "the log process is stopped too (a running non-daemon child keeps the interpreter from exiting)", okl,
-                   "" if okl else "after a worker died the log process is left running: the error surfaces but the program never exits")
+                   "" if okl else ("the processes to stop are gathered in a list and killed in a loop: shape not read" if okl is None else
+                                   "after a worker died the log process is left running: the error surfaces but the program never exits"))
         # the cleanup precedes the unconditional joins
         joins = [i for i, s in enumerate(pa.body()) if any(_is_proc_join(c) for c in ast.walk(s))
                  and not any(s is mon for _ in [0])]
@@ -1790,6 +1838,10 @@ def rule_dead(ctx):
                 final_ok, why = True, ""
             else:
                 why = "the loop flag `%s` is not recomputed by the pass that inspects the exit codes" % flag
+                # the flag computed from something gathered during the pass (`flag = any(c is None for c in seen)`): not read
+                if any(isinstance(n, ast.Assign) and isinstance(n.targets[0], ast.Name) and n.targets[0].id == flag and not isinstance(n.value, ast.Constant)
+                       for n in ast.walk(mon)):
+                    final_ok, why = None, "the loop flag `%s` is computed by an expression the analysis does not read" % flag
         elif any(isinstance(n, ast.Attribute) and n.attr == "exitcode" for n in ast.walk(t)):
             # condition looks at the exit codes directly: the body never runs once all workers have exited
             mi = _top_index(pa, mon)
